@@ -187,6 +187,9 @@ package machine
 //@   modifies box Allotment, box int
 //@   property C03
 
+// the machine.Type of a value
+//@ def valType(v) = ite(typeis(v, "machine.AccountAddress"), 1, ite(typeis(v, "machine.Asset"), 2, ite(typeis(v, "*machine.MonetaryInt") || typeis(v, "machine.MonetaryInt"), 3, ite(typeis(v, "machine.String"), 4, ite(typeis(v, "machine.Monetary"), 5, ite(typeis(v, "machine.Portion"), 6, ite(typeis(v, "machine.Allotment"), 7, ite(typeis(v, "machine.Funding"), 9, 0))))))))
+
 // ---- values built from client text (C12: a variable map cannot put a value into the machine that crashes it;
 // C01: what Run assumes of the resources)
 // machVal(v): a machine value the VM can hold: not a program descriptor, not a funding, numbers and amounts present
